@@ -15,6 +15,9 @@ import os
 import shutil
 
 _real_open = builtins.open
+_real_io_open = io.open
+_real_fsync = os.fsync
+_real_fdatasync = getattr(os, "fdatasync", None)
 _real_mkdir = os.mkdir
 _real_unlink = os.unlink
 _real_replace = os.replace
@@ -105,6 +108,7 @@ class BufferedWriteFile:
         self.mode = mode
         self.name = path
         self.real = _real_open(path, "wb")     # the truncating / creating open is visible at once; kept open like a real descriptor
+        self.synced = 0                        # bytes already forced to the disk by an fsync
 
     def write(self, data):
         if self.c.dead:
@@ -134,6 +138,23 @@ class BufferedWriteFile:
 
     def flush(self):
         pass
+
+    def writelines(self, lines):
+        for x in lines:
+            self.write(x)
+
+    def tell(self):
+        return len(self._data()) + self.synced
+
+    def _fsync(self):
+        """flush + os.fsync(fileno()): what has been written so far is on the disk and stays there whatever happens next"""
+        def do():
+            data = self._data()
+            self.real.write(data)
+            self.real.flush()
+            self.synced += len(data)
+            self.buf = []
+        _mutation(self.c, "fsync", self.rel, do)
 
     def close(self):
         if self.closed:
@@ -174,7 +195,15 @@ class BufferedWriteFile:
         return False
 
     def fileno(self):
-        raise io.UnsupportedOperation("fileno")
+        return self.real.fileno()
+
+
+def _fsync(fd):
+    for c in _components:
+        for f in c.open_files:
+            if not f.closed and f.real.fileno() == fd:
+                return f._fsync()
+    return _real_fsync(fd)
 
 
 class CountingRealFile:
@@ -249,6 +278,10 @@ def install():
     if _installed:
         return
     builtins.open = _open
+    io.open = _open              # pathlib's Path.open / write_bytes / write_text go through io.open
+    os.fsync = _fsync
+    if _real_fdatasync:
+        os.fdatasync = _fsync
     os.mkdir = _wrap1("mkdir", _real_mkdir)
     os.unlink = _wrap1("unlink", _real_unlink)
     os.remove = _wrap1("unlink", _real_unlink)
@@ -261,6 +294,10 @@ def install():
 def uninstall():
     global _installed
     builtins.open = _real_open
+    io.open = _real_io_open
+    os.fsync = _real_fsync
+    if _real_fdatasync:
+        os.fdatasync = _real_fdatasync
     os.mkdir = _real_mkdir
     os.unlink = _real_unlink
     os.remove = _real_unlink
